@@ -49,7 +49,7 @@ META = {
             "no noise inside ~Other; wrapped files use the SPACE delimiter; numeric tokens only"),
     "C10": ("channel/encoding differential + history-based purity invariants, Hypothesis",
             "the same text through 5 channels x 7 encodings x 3 line ends must give the StringIO reading and the expected reading; "
-            "operation histories (reads, mutations, writes, LASFile(), a path rewritten with other encodings, option objects reused) must leave re-reads, untouched "
+            "operation histories (reads, reads with policy lists, LASFile.read() into a used object, mutations, writes, LASFile(), a path rewritten with other encodings, option objects reused) must leave re-reads, untouched "
             "results and fresh defaults unchanged; files that exercise module-level tables are compared with fixed expectations",
             "autodetection claimed for the UTF-8 BOM only; CR line ends for files only"),
     "C11": ("fixed-point oracle over repeated read->write cycles, corpus enumeration + Hypothesis",
@@ -64,11 +64,11 @@ META = {
             "originals preserved; file-level multisets re-read under the three mnemonic_case modes",
             "after deletions stale suffixes are what the documented rule yields; open finding D23 (literal ':n' names) reported, not fatal"),
     "C14": ("model-based stateful testing (ordered-list model), Hypothesis rule-based machines + exhaustive short histories",
-            "every curve-editing operation is applied to lasio and to a plain list model; after each step keys/values/items/index/data/int and name indexing must agree and the other LASFile of a pair must be unchanged",
+            "every curve-editing operation is applied to lasio and to a plain list model; after each step keys/values/items/index/data/int and name indexing must agree and the other LASFile of a pair must be unchanged; numeric and text curves, shared arrays, zero-row set_data, names that look like numbered keys",
             "arguments documented as ndarray are ndarrays; refused operations must only leave the state unchanged"),
     "C15": ("exhaustive reachable-state enumeration x probe keys against list/first-match reference",
             "every section state reachable by <= 4 operations (both case modes) is probed with present/absent/other-case/int/slice keys: "
-            "membership, item, attribute, get, get(add=True), value assignment and deletion must agree as stated; also on copies of a section and on the ~Parameter section of a file actually read with mnemonic_case",
+            "membership, item, attribute, get, get(add=True), value assignment and deletion must agree as stated; also on copies of a section, on the ~Parameter section of a file actually read with mnemonic_case, with one item object held at two positions and with a name whose case mapping does not round-trip",
             "attribute probes skip names shadowing list/SectionItems attributes"),
     "C16": ("before/after snapshot (frame condition) + determinism + truthfulness oracle, corpus enumeration + Hypothesis",
             "full typed snapshot of the object before and after 1..3 writes: only the documented fields may change, repeated writes are byte-identical, "
@@ -87,7 +87,7 @@ META = {
             "steering names and '~' lines excluded (counted); must-warn set taken narrowly (neither '.' nor ':')"),
     "C20": ("exhaustive fault enumeration over every low-level I/O operation and every open() of a clean run",
             "for each (call kind, input) a clean run under an open()/io.open() tracker measures the operation count N; every k in 1..N and every open j is then run with an injected OSError; "
-            "all handles lasio opened must be closed with the exception still alive, caller objects stay open; file names as str, Path and bytes; two-call histories (any outcome of the first call, then write()/to_csv() of the same object to a caller's stream)",
+            "all handles lasio opened must be closed with the exception still alive, caller objects stay open; file names as str, Path and bytes; binary streams of the caller's tracked without proxy; two-call histories (any outcome of the first call, then write()/to_csv() of the same object to a caller's stream)",
             "handles are opened through builtins.open/io.open; close() itself never fails; third-party opens are not judged"),
 }
 
